@@ -37,9 +37,9 @@ fn c03_platt_range_f32() {
     assert!(*p >= 0.0 && *p <= 1.0);
     kani::cover!(z < 0.0 && *p < 1.0);
     kani::cover!(z > 0.0 && *p > 0.0);
-    kani::cover!(z == 0.0 && *p == 0.5);
-    kani::cover!(z == f32::INFINITY && *p == 0.0);
-    kani::cover!(z == f32::NEG_INFINITY && *p == 1.0);
+    kani::cover!(z == 0.0);
+    kani::cover!(z == f32::INFINITY);
+    kani::cover!(z == f32::NEG_INFINITY);
 }
 
 // @unit class=complete tier=quick mem=light timeout=600 fns=linfa::composing::platt_scaling::platt_predict
@@ -55,7 +55,24 @@ fn c03_platt_range_f64() {
     assert!(*p >= 0.0 && *p <= 1.0);
     kani::cover!(z < 0.0 && *p < 1.0);
     kani::cover!(z > 0.0 && *p > 0.0);
-    kani::cover!(z == 0.0 && *p == 0.5);
+    kani::cover!(z == 0.0);
+}
+
+// the limits of the documented g = 1/(1+exp(z)) when A*x+B overflows to +-inf
+// @unit class=complete tier=quick mem=light timeout=600 fns=linfa::composing::platt_scaling::platt_predict
+#[kani::proof]
+#[kani::unwind(6)]
+#[kani::stub(f32::exp, ghost_exp32)]
+#[kani::stub(alloc::fmt::format, fmt_stub)]
+fn c03_platt_limits_f32() {
+    let (x, a, b): (f32, f32, f32) = (kani::any(), kani::any(), kani::any());
+    kani::assume(x.is_finite() && a.is_finite() && b.is_finite());
+    let z = a * x + b;
+    kani::assume(z.is_infinite());
+    let p = platt_predict(x, a, b);
+    if z > 0.0 { assert!(*p == 0.0); } else { assert!(*p == 1.0); }
+    kani::cover!(z > 0.0);
+    kani::cover!(z < 0.0);
 }
 
 // ---- the sigmoid is centred: negative decision side => p >= 1/2, non-negative => p <= 1/2 ----
